@@ -28,6 +28,7 @@ struct HistBase {
   virtual ~HistBase() {}
   virtual std::string op(const std::vector<std::string>& t) = 0;
   virtual void teardown() = 0;
+  virtual std::string finish() = 0;
 };
 
 template<typename Sbx, bool IsVsbx>
@@ -47,7 +48,20 @@ struct Hist : HistBase {
   void teardown() override
   {
     // owners are leaked on purpose (their destructors may abort); live sandboxes release their address slot
-    for (int i = 0; i < NS; i++) if (live[i]) { try { sb[i]->destroy_sandbox(); } catch (...) {} live[i] = false; }
+    for (int i = 0; i < NS; i++) if (live[i]) {
+      try { sb[i]->destroy_sandbox(); } catch (...) { if constexpr (IsVsbx) sb[i]->get_sandbox_impl()->force_release(); }
+      live[i] = false;
+    }
+  }
+  // end of a history: every sandbox that is still created must be destroyable
+  std::string finish() override
+  {
+    std::string r = "ok";
+    for (int i = 0; i < NS; i++) if (live[i]) {
+      try { sb[i]->destroy_sandbox(); } catch (const std::runtime_error&) { r = "abort"; if constexpr (IsVsbx) sb[i]->get_sandbox_impl()->force_release(); }
+      live[i] = false;
+    }
+    return r;
   }
   int fid(void* key) { for (int i = 0; i < NF; i++) if (key == reinterpret_cast<void*>(fns[i])) return i; return -1; }
 
@@ -189,6 +203,7 @@ int main()
       else g_h.reset(new Hist<rlbox::rlbox_noop_sandbox, false>());
       return "ok";
     }
+    if (t[0] == "hend") return g_h ? guarded([&]() -> std::string { return g_h->finish(); }) : std::string("ok");
     if (g_dead) return "dead";
     std::string r = guarded([&]() -> std::string { return g_h->op(t); });
     // With RLBOX_USE_EXCEPTIONS an abort raised by a state-machine guard precedes every mutation, so the
